@@ -42,8 +42,9 @@ const (
 	c13VCall // the error result of an opaque callee, nilness not yet tested
 	c13VTrue
 	c13VFalse
-	c13VCond // a boolean that stands for a condition
-	c13VExpr // a value with a canonical name
+	c13VCond  // a boolean that stands for a condition
+	c13VExpr  // a value with a canonical name
+	c13VTuple // the results of a spliced call with several results, one value each
 )
 
 type c13Conj struct {
@@ -67,9 +68,17 @@ type c13Val struct {
 	kind   int
 	origin string // c13VNil/c13VNonNil/c13VCall: the opaque callee whose result this is; c13VExpr: canonical name
 	cond   *c13CondVal
+	elems  []c13Val // c13VTuple
 }
 
 func (v c13Val) key() string {
+	if v.kind == c13VTuple {
+		parts := make([]string, len(v.elems))
+		for i, e := range v.elems {
+			parts[i] = e.key()
+		}
+		return fmt.Sprintf("%d:(%s)", v.kind, strings.Join(parts, ","))
+	}
 	if v.cond != nil {
 		return fmt.Sprintf("%d:c%d", v.kind, v.cond.id)
 	}
@@ -250,6 +259,9 @@ type c13View struct {
 	// one outcome per alternative of the condition, behind a branch edge carrying the alternative's atoms -
 	// exactly the outcomes of the if/return spelling of the same function
 	splitBool bool
+	// tuples: calls of helpers with several results are spliced too; `a, ok := g()` gives each tracked
+	// local the value of the corresponding result (a sentinel result and an explicit boolean result read alike)
+	tuples bool
 
 	nodes    map[string]*c13Node
 	order    []*c13Node
@@ -382,7 +394,7 @@ func (vw *c13View) calleeOf(fr *c13Frame, call *ast.CallExpr) *core.FuncInfo {
 	default:
 		return nil
 	}
-	if g.Type.Results != nil && g.Type.Results.NumFields() > 1 {
+	if g.Type.Results != nil && g.Type.Results.NumFields() > 1 && !vw.tuples {
 		return nil
 	}
 	if n := len(g.Type.Params.List); n > 0 {
@@ -512,6 +524,20 @@ func (vw *c13View) doReturn(n *c13Node, r *ast.ReturnStmt, st *c13State) {
 		// a bare return: the value of the named result
 		val = st.vars[v]
 		what = v.Name()
+	} else if !fr.isRoot() && len(r.Results) > 1 {
+		val = c13Val{kind: c13VTuple}
+		for _, e := range r.Results {
+			val.elems = append(val.elems, vw.evalVal(fr, st, e))
+		}
+	} else if !fr.isRoot() && len(r.Results) == 0 && fr.f.Type.Results != nil && fr.f.Type.Results.NumFields() > 1 {
+		// a bare return of several named results: what the state knows about each
+		val = c13Val{kind: c13VTuple}
+		for _, fld := range fr.f.Type.Results.List {
+			for _, nm := range fld.Names {
+				rv, _ := fr.f.Info().Defs[nm].(*types.Var)
+				val.elems = append(val.elems, st.vars[rv])
+			}
+		}
 	}
 	if fr.isRoot() {
 		if vw.splitBool && len(r.Results) == 1 && val.kind == c13VCond {
@@ -593,6 +619,8 @@ func (vw *c13View) isTracked(fr *c13Frame, v *types.Var) bool {
 			// defined by a spliced call
 			if call, isCall := ast.Unparen(c13SingleDefExpr(f, v)).(*ast.CallExpr); isCall && vw.calleeOf(fr, call) != nil {
 				ok = true
+			} else if call, _ := c13TupleDef(f, v); call != nil && vw.calleeOf(fr, call) != nil {
+				ok = true // one of the results of a spliced call: `v, found := g()`
 			}
 		}
 		if !ok && vw.valuer != nil && c13ReturnedVar(f, v) {
@@ -627,6 +655,11 @@ func (vw *c13View) assign(fr *c13Frame, st *c13State, stmt ast.Node) *c13State {
 			val := c13Val{}
 			if len(x.Lhs) == len(x.Rhs) && (x.Tok == token.ASSIGN || x.Tok == token.DEFINE) {
 				val = vw.evalVal(fr, st, x.Rhs[i])
+			} else if tup, isTup := vw.tupleOf(st, x); isTup {
+				// a, ok := g() with g spliced: the value of the i-th result
+				if i < len(tup.elems) {
+					val = tup.elems[i]
+				}
 			} else if call, isCall := ast.Unparen(x.Rhs[0]).(*ast.CallExpr); isCall && len(x.Rhs) == 1 && i == len(x.Lhs)-1 && types.Identical(v.Type(), types.Universe.Lookup("error").Type()) {
 				// v, err := g(): the error of an opaque callee
 				if nm := calleeName(f, call); nm != "" {
@@ -666,6 +699,51 @@ func (vw *c13View) assign(fr *c13Frame, st *c13State, stmt ast.Node) *c13State {
 		st = st.withVar(u.v, u.x)
 	}
 	return st
+}
+
+// tupleOf: the statement assigns the results of a spliced call with several results, evaluated in this state.
+func (vw *c13View) tupleOf(st *c13State, x *ast.AssignStmt) (c13Val, bool) {
+	if len(x.Rhs) != 1 || len(x.Lhs) < 2 || x.Tok != token.ASSIGN && x.Tok != token.DEFINE {
+		return c13Val{}, false
+	}
+	call, ok := ast.Unparen(x.Rhs[0]).(*ast.CallExpr)
+	if !ok {
+		return c13Val{}, false
+	}
+	v, ok := st.calls[call]
+	return v, ok && v.kind == c13VTuple
+}
+
+// c13TupleDef: the local has exactly one definition, as the i-th target of `a, b := g()` / `a, b = g()`.
+func c13TupleDef(f *core.FuncInfo, v *types.Var) (*ast.CallExpr, int) {
+	if v == nil {
+		return nil, 0
+	}
+	var call *ast.CallExpr
+	at, n := 0, 0
+	for _, a := range assignments(f) {
+		if varOfRaw(f, a.LHS) != v {
+			continue
+		}
+		n++
+		as, ok := a.Stmt.(*ast.AssignStmt)
+		if !ok || len(as.Rhs) != 1 || len(as.Lhs) < 2 || as.Tok != token.ASSIGN && as.Tok != token.DEFINE {
+			return nil, 0
+		}
+		cl, ok := ast.Unparen(as.Rhs[0]).(*ast.CallExpr)
+		if !ok {
+			return nil, 0
+		}
+		for i, l := range as.Lhs {
+			if l == a.LHS {
+				call, at = cl, i
+			}
+		}
+	}
+	if n != 1 {
+		return nil, 0
+	}
+	return call, at
 }
 
 // known: what the state says about the expression (a tracked local, an evaluated call, or the untested
